@@ -127,6 +127,23 @@ def class_state():
     return out
 
 
+def module_state():
+    """Identity of every module-level binding of the library and of PyCifRW (hooks, caches, monkey-patches)."""
+    out = {}
+    for name in list(sys.modules):
+        if name.startswith(("diffpy.structure", "CifFile")):
+            m = sys.modules[name]
+            try:
+                # functions, classes and modules only: the parser generators of PyCifRW keep scratch DATA at module
+                # level (e.g. YappsStarParser_*.lastval), which is not an effect of interest; a replaced hook is
+                import types
+                out[name] = {k: id(v) for k, v in vars(m).items()
+                             if not k.startswith("__") and (callable(v) or isinstance(v, types.ModuleType))}
+            except Exception:   # noqa
+                pass
+    return out
+
+
 def run_case(c, scratch):
     import diffpy.structure as ds
     from diffpy.structure.parsers import getParser
@@ -137,7 +154,7 @@ def run_case(c, scratch):
         with open(path, "w", encoding="utf-8", errors="surrogateescape", newline="") as f:
             f.write(text)
     before = {"modules": set(sys.modules), "cwd_list": listing(os.getcwd()), "scratch": listing(scratch), "env": dict(os.environ),
-              "cwd": os.getcwd(), "classes": class_state(), "path": list(sys.path), "meta": len(sys.meta_path)}
+              "cwd": os.getcwd(), "classes": class_state(), "path": list(sys.path), "meta": len(sys.meta_path), "modstate": module_state()}
     state["events"], state["edges"] = [], set()
     outcome, detail, stru = "ok", "", None
     sys.setprofile(profiler)
@@ -177,6 +194,9 @@ def run_case(c, scratch):
         except BaseException as e:   # noqa
             probe = "probe failed: %s" % type(e).__name__
     after_classes = class_state()
+    after_mod = module_state()
+    mod_changed = sorted("%s.%s" % (m, k) for m, d0 in before["modstate"].items() for k, v in d0.items()
+                         if after_mod.get(m, {}).get(k, v) != v)
     diff = {
         "new_modules": sorted(set(sys.modules) - before["modules"]),
         "cwd_changed": listing(os.getcwd()) != before["cwd_list"] or os.getcwd() != before["cwd"],
@@ -184,6 +204,7 @@ def run_case(c, scratch):
         "env_changed": dict(os.environ) != before["env"],
         "classes_changed": sorted(k for k in before["classes"] if before["classes"][k] != after_classes.get(k)),
         "sys_path_changed": list(sys.path) != before["path"] or len(sys.meta_path) != before["meta"],
+        "module_attrs_changed": mod_changed[:8],
     }
     return {"id": c["id"], "outcome": outcome, "detail": detail, "events": state["events"], "edges": sorted(state["edges"]),
             "diff": diff, "path": path, "probe": probe}
